@@ -332,6 +332,7 @@ def run(ctx):
 
     # ---------------------------------------------------------------- R11.8 positions are compared with an absolute tolerance
     _arc_point_to_t_axis_points(ctx, mdl)
+    _flat_box_instances(ctx, mdl)
     ctx.rule('R11.8', 'point_to_t: an isclose() test between POSITIONS (values that move with a translation of the figure) has rtol = 0: a relative '
                       'tolerance grows with the distance from the origin and accepts points that are not on the segment', 2)
     SHIFT = Rat.csym('SHIFT')
@@ -382,7 +383,7 @@ def run(ctx):
         ob('R11.8').run(fpt, '%s.point_to_t: position comparisons are absolute' % label, th8, judge8, allowed_raises=('AssertionError', 'ValueError'), opts=opts8)
 
 
-def subdivision_scenarios(ctx, rule, scenarios, mode='all'):
+def subdivision_scenarios(ctx, rule, scenarios, mode='all', offset=0):
     """mode: 'all' | 'soundness' (what is reported is justified) | 'once' (every group of accepted cells is reported exactly once).
     bezier_intersections on a symbolic cubic x quadratic with CONCRETE bounding boxes realising a scenario (L, cells): at
     subdivision level L (1 = halves, 2 = quarters) exactly the listed cells (piece index on the first curve, on the second) overlap
@@ -449,7 +450,9 @@ def subdivision_scenarios(ctx, rule, scenarios, mode='all'):
             if pc is None:
                 log['unknown'].append(key)
                 return (5000, 5001, 5000, 5001)
-            return tuple(Rat.const(v) for v in box_of(pc[0], pc[1], pc[2], L, cells))
+            # `offset` moves the whole figure far from the origin (overlaps stay what they are: a test that scales its tolerance
+            # with the magnitude of the coordinates loses them)
+            return tuple(Rat.const(v + offset) for v in box_of(pc[0], pc[1], pc[2], L, cells))
 
         def pt_hook(it, a, k):
             return Rat.csym('PT_%s' % to_rat(a[1]).key().replace('/', 'o').replace('*', '').replace(' ', ''))
@@ -519,7 +522,11 @@ def subdivision_scenarios(ctx, rule, scenarios, mode='all'):
                     anc.add(area(box_of(tag, lvl, i, L, cells)))
         for a_ in sorted(anc):
             pres.append((Rat.const(a_) - TOLD, '+'))
-        ob(rule).run(fbi, 'subdivision scenario%s: at level %d exactly the cells %s overlap' % ({'all': '', 'soundness': ' (soundness)', 'once': ' (reported once)'}[mode], L, cells), th7, judge7, allowed_raises=('Exception',),
+        if offset:
+            # the cells themselves are known to be small, whatever the solver looks at: every one of them has to be reported
+            for a_ in sorted({area(box_of(tag, L, i, L, cells)) for a, b in cells for tag, i in (('B1', a), ('B2', b))} - anc):
+                pres.append((Rat.const(a_) - TOLD, '-'))
+        ob(rule).run(fbi, 'subdivision scenario%s%s: at level %d exactly the cells %s overlap' % ({'all': '', 'soundness': ' (soundness)', 'once': ' (reported once)'}[mode], ' far from the origin' if offset else '', L, cells), th7, judge7, allowed_raises=('Exception',),
                      opts={'call_hooks': {'bezier.bezier_bounding_box': bbox_hook, 'bezier.bezier_point': pt_hook},
                            'ext_hooks': {'builtins.int': lambda it, a, k: 5, 'math.ceil': lambda it, a, k: Rat.sym('CEIL'),
                                          'math.log': lambda it, a, k: Rat.sym('LOG')},
@@ -577,3 +584,37 @@ def _arc_point_to_t_axis_points(ctx, mdl):
                 ctx.undecided('R11.9', fi.qualname, label, und, where=where(fi))
             else:
                 ctx.record('R11.9', fi.qualname, label, not bad, detail='; '.join(bad[:3]), where=where(fi), sample={'arcs': n})
+
+
+def _flat_box_instances(ctx, mdl):
+    """bezier_intersections on concrete straight, axis-parallel Beziers (bounding boxes of zero area at every depth, the
+    degenerate case of a termination test on the box AREA): whatever is returned, the two points of every reported pair
+    coincide - the function's own promise abs(B1(t) - B2(s)) < tol_deC."""
+    fi = mdl.func('bezier.bezier_intersections')
+    cases = [('horizontal cubic x vertical cubic, crossing off-centre', [complex(x, 1) for x in (0, 1, 3, 4)], [complex(1, y) for y in (0, 1, 3, 4)]),
+             ('horizontal quadratic x vertical quadratic', [complex(x, 2) for x in (0, 1, 8)], [complex(3, y) for y in (-1, 0, 7)]),
+             ('T-junction: vertical cubic ending on a horizontal cubic', [complex(x, 0) for x in (0, 2, 3, 8)], [complex(5, y) for y in (4, 3, 1, 0)]),
+             ('horizontal cubic x vertical quadratic, boxes touching at a corner', [complex(x, 0) for x in (0, 1, 2, 3)], [complex(3, y) for y in (0, 1, 5)])]
+    from svtstatic.values import concrete_number
+    for label, A, B in cases:
+        def th(it, A=A, B=B):
+            a = [Rat.const(z) for z in A]
+            b = [Rat.const(z) for z in B]
+            prs = it.call(it.closure_of('bezier.bezier_intersections'), [a, b, Rat.const(8)], {})
+            out = []
+            for pr in it.iterate(prs):
+                t1, t2 = it.iterate(pr)
+                out.append((t1, t2, it.call(it.closure_of('bezier.bezier_point'), [a, t1], {}), it.call(it.closure_of('bezier.bezier_point'), [b, t2], {})))
+            return out
+
+        def judge(v):
+            for t1, t2, p1, p2 in v:
+                d = to_rat(p1) - to_rat(p2)
+                c = d.const_value() if d.is_const() and not d.has_fn_atoms() else None
+                if c is None:
+                    return None, 'reported points are not reduced to numbers'
+                if c[0] * c[0] + c[1] * c[1] > Fr(1, 10 ** 12):
+                    return False, 'reports (t1, t2) = (%s, %s) whose points %s and %s are %s apart' % (short(t1, 10), short(t2, 10), short(p1, 14), short(p2, 14),
+                                                                                                    round(float(c[0] * c[0] + c[1] * c[1]) ** 0.5, 6))
+            return True, ''
+        Obligation(ctx, 'R11.7').run(fi, 'flat boxes: %s' % label, th, judge, allowed_raises=())
